@@ -110,7 +110,7 @@ def builder_stubs(cx, engine):
 def explore_builder(cx, res, fname):
     eng = C.make_engine(cx, [], loop_mode="cut", timeout_s=200, max_paths=20000)
     eng.stable_names = True
-    eng.stubs = builder_stubs(cx, eng) + S.CORE_STUBS
+    eng.stubs = builder_stubs(cx, eng) + S.COMBINATOR_STUBS + S.CORE_STUBS
     fn = C.resolve_callee(cx, "Parser::<R>::" + fname)
     if fn is None:
         raise Unsupported("builder %s not found" % fname)
@@ -265,14 +265,22 @@ def claim_list_protocol(cx, res, kf):
                 seen["eof"] += 1
                 res.must_be_unsat(pc + [z3.Not(z3.And(z3.Not(werr), z3.Not(wsome)))], "%s: EOF error without end of input" % fname)
                 continue
-            if "peek_or_null" in kinds:
-                # the '.' branch
+            la = next((e for e in evs[1:] if e[0] == "peek_or_null" or e[0].startswith("raw:")), None)
+            if la is None and "symsuffix" in kinds:
+                res.violations.append({"what": "%s: a `.name` symbol is read without looking at the byte after the dot" % fname, "replayed": None})
+                continue
+            if la is not None:
+                # the '.' branch: one byte of lookahead after the dot (however it is read)
                 res.must_be_unsat(pc + [z3.Not(is_dot)], "%s: dot handling entered on another byte" % fname)
-                pk = [e for e in evs if e[0] == "peek_or_null"][0]
-                nb = pk[3]
-                # every byte that ends a symbol ends the lone dot as well
-                delim = z3.Or(nb == 0, *[nb == c for c in (0x20, 0x09, 0x0A, 0x0C, 0x0D, ord("|"), ord("("), ord(")"), ord('"'),
-                                                            ord("["), ord("]"), ord(";"))])
+                if la[0] == "peek_or_null":
+                    pk = (la[0], la[1], la[2])
+                    nb, la_some = la[3], z3.BoolVal(True)
+                else:
+                    pk = (la[0], la[1], la[2])
+                    nb, la_some = la[4], la[3]
+                # the end of input and every byte that ends a symbol end the lone dot as well
+                delim = z3.Or(z3.Not(la_some), nb == 0, *[nb == c for c in (0x20, 0x09, 0x0A, 0x0C, 0x0D, ord("|"), ord("("), ord(")"), ord('"'),
+                                                                            ord("["), ord("]"), ord(";"))])
                 if "expect" in kinds:
                     # dotted tail: needs a previous element, a delimiter after the dot, trivia skipped after the tail,
                     # and the list's own closer
@@ -320,7 +328,18 @@ def claim_list_protocol(cx, res, kf):
                     continue
                 if "symsuffix" in kinds:
                     seen["dotsym"] += 1
-                    res.must_be_unsat(pc + [z3.Not(z3.And(z3.Not(pk[2]), z3.Not(delim)))], "%s: `.name` symbol branch taken at a delimiter" % fname)
+                    def onm3(m, fname=fname):
+                        api = "single"
+                        for text, o in ((b"(a .", "default"), (b"(a . ", "default"), (b"[a .", "default"), (b"(a .)", "default"), (b"(a . )", "default")):
+                            nat = RP.parse(text, o, "slice", api)
+                            res.replays += 1
+                            want = "eof" if not text.rstrip().endswith(b")") else "syntax"
+                            if "err" not in nat or nat["err"]["cat"] != want:
+                                return {"replayed": True, "observed": nat, "witness": {"kind": "parse", "input_hex": text.hex(), "opts": o, "src": "slice", "api": api, "fast": True}}
+                        return {"replayed": False}
+                    res.must_be_unsat(pc + [z3.Not(z3.And(z3.Not(pk[2]), z3.Not(delim)))],
+                                      "%s: `.name` symbol branch taken at a delimiter / at the end of input (a list cut off after the dot is then a "
+                                      "syntax error instead of an EOF error)" % fname, onm3)
                     if out[0] == "loop" and "name_token" not in kinds[kinds.index("symsuffix"):]:
                         # C08: what a name reads as must not depend on its position or on its first byte
                         from . import confirm as CF
@@ -394,7 +413,7 @@ CLAIMS = [
           "parse_list / parse_list_meta: a list ends only at its own closer (mismatch otherwise), `()` iff no element, "
           "a dotted tail needs a head element and a delimiter after the dot, trivia is skipped before the closer after "
           "the tail and that closer must be the list's own, `.name` reads a symbol",
-          "any number of elements (loop cut), both closers, arbitrary reader behaviour", configs=("fast",), also=("C12", "C13")),
+          "any number of elements (loop cut), both closers, arbitrary reader behaviour", configs=("fast",), also=("C12", "C13", "C19")),
     Claim("c10_builder_lockstep", "C10", "quick", claim_lockstep,
           "for every behaviour of the reader and of the nested parser, parse_list_meta takes exactly the steps of "
           "parse_list and parse_vector_meta those of parse_vector (same trivia skips, same lookahead, same nested "
